@@ -605,7 +605,7 @@ var validArgs = map[string][]string{
 	"absolute-schema": {"/a", "/a/b", "/p:a", "/p:a/q:b/c", "/a.b/c-d"},
 	"descendant":      {"a", "a/b", "p:a", "p:a/q:b/c", "a.b/c-d"},
 	"unique":          {"a", "a b", "a/b", "a/b c/d", "p:a/q:b  c", "a\tb\nc"},
-	"range":           {"1", "1..10", "min..max", "min..10", "1..max", "1|2", "1 | 2", "1..2|4..5", "1 .. 2 | 4 .. 5", "-5..5", "-10..-5", "0", "min", "max", "1.5..2.5", "-0.5..0.5", "1..2|3|4..max", "1\n..\n2"},
+	"range":           {"1", "1..10", "min..max", "min..10", "1..max", "1|2", "1 | 2", "1..2|4..5", "1 .. 2 | 4 .. 5", "-5..5", "-10..-5", "0", "min", "max", "1.5..2.5", "-0.5..0.5", "1..2|3|4..max", "1\n..\n2", "0.01..99.99", "-1.05..1.05", "1.00..2.00", "min..0.001 | 0.5", "0.0", "10.010", "0.007"},
 	"length":          {"1", "1..10", "min..max", "min..10", "1..max", "1|2", "1 | 2", "1..2|4..5", "1 .. 2 | 4 .. 5", "0", "min", "max", "0..0", "1..2|3|4..max"},
 }
 
